@@ -13,7 +13,7 @@ import (
 // iteration number t symbolic; loop-carried big integers get a symbol X for "content at
 // the head of iteration t", their recurrence is recognised at the back edge, and the
 // closed form is substituted into what the body recorded.  No unrolling.
-func (e *Eval) evalLoop(fr *frame, h *ssa.BasicBlock, body map[*ssa.BasicBlock]bool, entry State, done map[*ssa.BasicBlock]bool) {
+func (e *Eval) evalLoop(fr *frame, h *ssa.BasicBlock, body map[*ssa.BasicBlock]bool, entry State, done map[*ssa.BasicBlock]bool) (clean bool) {
 	for b := range body {
 		done[b] = true
 	}
@@ -26,6 +26,7 @@ func (e *Eval) evalLoop(fr *frame, h *ssa.BasicBlock, body map[*ssa.BasicBlock]b
 		lin Lin
 	}
 	var ivs []ivT
+	topPhi := false
 	phiVal := map[*ssa.Phi]AV{}
 	for _, in := range h.Instrs {
 		phi, ok := in.(*ssa.Phi)
@@ -76,6 +77,7 @@ func (e *Eval) evalLoop(fr *frame, h *ssa.BasicBlock, body map[*ssa.BasicBlock]b
 				phiVal[phi] = outside
 			} else {
 				phiVal[phi] = e.topOf(phi.Type(), "loop-carried value without recognised recurrence")
+				topPhi = true
 			}
 		}
 	}
@@ -628,6 +630,37 @@ func (e *Eval) evalLoop(fr *frame, h *ssa.BasicBlock, body map[*ssa.BasicBlock]b
 		e.event("P5", Undecided, h.Instrs[len(h.Instrs)-1], "loop in %s has no exit test in its header", fr.fn.Name())
 	}
 	// blocks reached from inside the body keep their iteration-context edge states (set by evalBlock)
+
+	// did the summary lose something an iteration-by-iteration evaluation could keep?
+	clean = !topPhi && !breakLike && lastSolved && !lp.imprecise
+	if clean && T != 0 && haveBack {
+		for _, o := range objs {
+			switch c := exitSt[o].(type) {
+			case BigC:
+				if c.Kind != bkLayout && c.Kind != bkConst && c.Why != "scratch value of the last iteration" {
+					clean = false
+				}
+			case *ArrC:
+				if c.Top != "" {
+					clean = false
+				}
+			case SBC:
+				if c.Top != "" {
+					clean = false
+				}
+			case BufC:
+				if c.B.Str == nil && !c.B.HasVal {
+					clean = false
+				}
+			default:
+				clean = false // cells, vectors, maps, hashes written in the loop are not summarised
+			}
+		}
+	}
+	if T > maxUnroll {
+		clean = true // too long to evaluate one by one anyway
+	}
+	return clean
 }
 
 // breakLikeLoop: some edge leaves the loop from a block other than its header.
